@@ -57,7 +57,7 @@ class Tricky(Enum):
     B = "A"
 
 
-class MixEnum(Enum):
+class Plain(Enum):
     X = 1
     Y = "y"
 
